@@ -261,6 +261,17 @@ def impl_trace(item):
         tbk = traceback.extract_tb(ex.__traceback__)
         crashed = {'exc': type(ex).__name__, 'msg': str(ex)[:200],
                    'where': [f'{os.path.basename(fr.filename)}:{fr.lineno}:{fr.name}' for fr in tbk[-3:]]}
+    # D36 class: did a matcher collapse repeated nodes (fewer matched pairs than a complete matching has)?
+    collapsed = False
+    for i in MON.order:
+        m = MON.objs[i][0]
+        if type(m).__name__ == 'WeightedBipartiteMatcher' and getattr(m, '_match', None) is not None:
+            try:
+                if all(e is not None for row in (m._edges or []) for e in row) and \
+                        len(m._match) < min(len(m.from_nodes), len(m.to_nodes)):
+                    collapsed = True
+            except Exception:  # noqa
+                pass
     objs = []
     ids = list(MON.order)
     if root_id is not None and root_id in MON.objs:
@@ -283,7 +294,8 @@ def impl_trace(item):
         if crashed and len(out) > 300:
             out = out[:300]
         objs.append([cname, out])
-    res = {'a': ta, 'b': tb, 'root': root_id is not None and mode == 'active', 'crashed': crashed, 'objs': objs,
+    res = {'a': ta, 'b': tb, 'root': root_id is not None and mode == 'active', 'crashed': crashed, 'collapsed': collapsed,
+           'objs': objs,
            'steps': MON.steps, 'calls': MON.calls, 'unstepped_objects': n_const}
     MON.reset('active')
     if crashed:
@@ -314,7 +326,7 @@ def case_term(r):
     a = r['a'] or DUMMY
     b = r['b'] or DUMMY
     objs = ';'.join(f'Build_otrace {CLS.get(c, "COther")} [{";".join(ev_term(e) for e in evs)}]' for c, evs in r['objs'])
-    return f'(Build_case {sl.tree_term(a)} {sl.tree_term(b)} {sl.b(bool(r["crashed"]))} [{objs}])'
+    return f'(Build_case {sl.tree_term(a)} {sl.tree_term(b)} {sl.b(bool(r["crashed"]))} {sl.b(bool(r.get("collapsed")))} [{objs}])'
 
 
 def _nodes(t):
@@ -483,7 +495,7 @@ def open_findings():
     return fs
 
 
-KF_CLASSES = [('D36', 'kf_matcher_fails')]      # (finding id, Gallina class predicate); applied to ext cases only
+KF_CLASSES = [('D36', 'kf_multiset_duplicates_C04')]      # (finding id, Gallina class predicate); applied to ext cases only
 EXT_GUARD = 8          # wall-clock seconds per ext item (D36 can make repeat_until_tightened spin for ever)
 TIMEOUT_EXCS = ('ItemGuardTimeout',)
 
@@ -525,7 +537,7 @@ def evaluate(run, wd, st, items, tag='cases'):
         if it.get('ext'):
             stats['ext_cases'] += 1
             stats['ext_timeouts'] += 1 if timed_out(o) else 0
-        stats['steps'] += o['steps']
+        stats['steps'] += 0 if o['crashed'] else o['steps']       # a run cut by the guard spins: not counted
         stats['objects'] += len(o['objs'])
         stats['crashed'] += 1 if o['crashed'] else 0
         for c, evs in o['objs']:
